@@ -390,6 +390,191 @@ inline vf::CaseResult run_version(const vf::RunnerArgs& /*args*/, const std::vec
 }
 
 // =====================================================================================================
+// C09 (component scenario): base_node::lock_parent against the most general environment that keeps the documented protocol
+// "parent_ of a node is written only by the holder of the current parent's lock (of the root lock for the tree root)".
+// One thread holds the lock of node C and calls C->lock_parent(ti); 1-2 mover threads re-parent C the way interior splits (C moves to
+// a new, still locked right sibling) and interior collapses (C becomes the tree root; the old parent is deleted) do.  Whatever the
+// number of moves, lock_parent must return the node that IS the parent at that moment, locked by the caller (nullptr + root lock for
+// the root), and nothing may stay locked afterwards.  The whole-tree scenarios reach two consecutive moves across one lock_parent
+// call only with ~190 keys and three preemptions in two-step windows; this scenario reaches them with a handful of steps.
+// =====================================================================================================
+inline vf::CaseResult run_lockparent(const vf::RunnerArgs& /*args*/, const std::vector<std::uint8_t>& bytes, bool record, vf::Stats& st) {
+    vf::CaseResult res;
+    Chooser c(bytes);
+    const unsigned n_movers = 1 + c.range(0, 1);
+    struct Move {
+        unsigned kind; // 0 = split-like (new locked sibling), 1 = collapse to root, 2 = split-like, sibling unlocked late
+    };
+    std::vector<std::vector<Move>> prog(n_movers);
+    std::ostringstream tx;
+    const bool start_as_root = c.chance(1, 5);
+    tx << (start_as_root ? "C starts as the tree root;" : "C starts below an interior;");
+    unsigned total_moves = 0;
+    for (unsigned m = 0; m < n_movers; ++m) {
+        unsigned k = 1 + c.range(0, 2);
+        tx << " M" << m << ":";
+        for (unsigned i = 0; i < k; ++i) {
+            Move mv{static_cast<unsigned>(c.weighted({5, 2, 3}))};
+            prog[m].push_back(mv);
+            tx << (mv.kind == 0 ? " split" : (mv.kind == 1 ? " collapse" : " split(late unlock)"));
+            ++total_moves;
+        }
+    }
+    const unsigned rounds = 1 + c.range(0, 1);
+    tx << " caller: " << rounds << "x lock_parent";
+    // nodes (heap; intentionally never freed inside the case: see below)
+    auto* ti = new tree_instance(); // NOLINT
+    auto* C = new border_node();    // NOLINT
+    C->init_border();
+    std::vector<interior_node*> pool;
+    auto fresh = [&pool]() {
+        auto* n = new interior_node(); // NOLINT
+        n->init_interior();
+        pool.push_back(n);
+        return n;
+    };
+    // all nodes a move may need are created up front (no allocation inside the scheduled region)
+    for (unsigned i = 0; i < total_moves + 2; ++i) { fresh(); }
+    std::size_t next_fresh = 0;
+    if (start_as_root) {
+        C->set_parent(nullptr);
+        ti->store_root_ptr(C);
+    } else {
+        interior_node* p0 = pool[next_fresh++];
+        C->set_parent(p0);
+        ti->store_root_ptr(p0);
+    }
+    auto& S = sched::Scheduler::get();
+    std::vector<std::string> errs(n_movers + 1);
+    unsigned moves_done = 0;
+    unsigned moves_during_call = 0;
+    bool in_call = false;
+    std::vector<std::function<void()>> bodies;
+    // thread 0: the caller
+    bodies.emplace_back([&] {
+        for (unsigned r = 0; r < rounds; ++r) {
+            C->lock();
+            in_call = true;
+            base_node* p = C->lock_parent(ti);
+            in_call = false;
+            // judged at once: while the returned lock is held nobody may re-parent C
+            base_node* now = C->get_parent();
+            if (p != now) {
+                errs[0] = "lock_parent returned a node that is not the parent of the caller's node (returned " + std::string(p == nullptr ? "nullptr" : "a node") +
+                          ", parent is " + (now == nullptr ? "nullptr" : "another node") + ")";
+            } else if (p == nullptr) {
+                if (!ti->verif_root_locked()) { errs[0] = "lock_parent returned nullptr without holding the root lock"; }
+                if (ti->load_root_ptr() != C) { errs[0] = "lock_parent returned nullptr but the node is not the tree root"; }
+            } else if (!p->get_version().get_locked()) {
+                errs[0] = "lock_parent returned an unlocked node";
+            }
+            sched::op_boundary();
+            if (p == nullptr) {
+                if (ti->verif_root_locked()) { ti->root_unlock(); }
+            } else if (p->get_version().get_locked() && p == now) {
+                p->version_unlock();
+            }
+            C->version_unlock();
+            sched::op_boundary();
+        }
+    });
+    for (unsigned m = 0; m < n_movers; ++m) {
+        bodies.emplace_back([&, m] {
+            for (auto& mv : prog[m]) {
+                sched::op_boundary();
+                // take the lock that guards C's parent pointer (harness code: the documented protocol, written out)
+                base_node* cur = nullptr;
+                for (;;) {
+                    cur = C->get_parent();
+                    if (cur == nullptr) { break; }
+                    cur->lock();
+                    if (C->get_parent() == cur) { break; }
+                    cur->version_unlock();
+                }
+                if (cur == nullptr) {
+                    // C is the tree root: only C's own split (which needs C's lock, held by the caller) could give it a parent
+                    continue;
+                }
+                if (mv.kind == 1) {
+                    // collapse: C becomes the tree root, the old parent is deleted (interior_node::delete_of, n_keys == 1)
+                    if (ti->load_root_ptr() != cur) {
+                        cur->version_unlock();
+                        continue; // only the root interior collapses into the tree root
+                    }
+                    ti->root_lock();
+                    C->set_parent(nullptr);
+                    ti->store_root_ptr(C);
+                    cur->set_version_deleted(true);
+                    cur->version_unlock();
+                    ti->root_unlock();
+                } else {
+                    // split: C moves to a new right sibling that is still locked by the splitting thread
+                    interior_node* sib = pool[next_fresh++];
+                    sib->lock();
+                    if (ti->load_root_ptr() == cur) { ti->store_root_ptr(sib); } // keeps "root interior" well defined for later collapses
+                    C->set_parent(sib);
+                    if (mv.kind == 0) {
+                        cur->version_unlock();
+                        sib->version_unlock();
+                    } else {
+                        sib->version_unlock();
+                        cur->version_unlock();
+                    }
+                }
+                ++moves_done;
+                if (in_call) { ++moves_during_call; }
+            }
+        });
+    }
+    S.step_limit = 200000;
+    S.clock = 0;
+    S.fatal_on_step_limit = true;
+    sched::RevBytes rb(bytes.data(), bytes.size());
+    sched::Outcome oc = S.run(std::move(bodies), rb);
+    S.fatal_on_step_limit = false;
+    std::string text = tx.str() + " moves=" + std::to_string(moves_done) + " (during a lock_parent call: " + std::to_string(moves_during_call) + ") steps=" +
+                       std::to_string(S.steps) + " preemptions=" + std::to_string(S.preemptions) + " spin_blocks=" + std::to_string(S.spin_blocks);
+    if (oc == sched::Outcome::Released) {
+        res.inconclusive = true;
+        return res; // nodes intentionally leaked: threads may still touch them
+    }
+    for (std::size_t t = 0; t < errs.size(); ++t) {
+        ++st.checks;
+        if (!errs[t].empty() && res.pass) {
+            res.pass = false;
+            res.signature = "lock_parent_wrong_node";
+            res.message = errs[t] + "\n" + text;
+        }
+    }
+    if (res.pass) {
+        bool left = C->get_version().get_locked() || ti->verif_root_locked();
+        for (auto* n : pool) {
+            if (n->get_version().get_locked()) { left = true; }
+        }
+        if (left) {
+            res.pass = false;
+            res.signature = "lock_left";
+            res.message = "a node or the root lock is still held after all threads finished\n" + text;
+        }
+    }
+    for (auto* n : pool) { delete n; } // NOLINT
+    delete C;                          // NOLINT
+    delete ti;                         // NOLINT
+    if (record && res.pass) {
+        if (moves_during_call >= 1) { st.cls("parent_moved_during_call"); }
+        if (moves_during_call >= 2) { st.cls("parent_moved_twice_during_call"); }
+        if (S.spin_blocks > 0) { st.cls("contended_spin"); }
+        if (moves_during_call >= 1 && S.preemptions > 0) {
+            std::uint64_t fp = vf::fnv1a(text);
+            fp = vf::fnv1a(S.trace.data(), S.trace.size(), fp);
+            st.nontrivial(fp);
+            if (st.want_sample("lock_parent")) { st.sample("lock_parent", text); }
+        }
+    }
+    return res;
+}
+
+// =====================================================================================================
 // C13 (SCHED part): concurrent create / create and delete / delete of one name
 // =====================================================================================================
 inline vf::CaseResult run_ddl(const vf::RunnerArgs& /*args*/, const std::vector<std::uint8_t>& bytes, bool record, vf::Stats& st) {
